@@ -3,6 +3,7 @@ package ast
 import (
 	"bytes"
 	"fmt"
+	"sort"
 	"strings"
 
 	"github.com/textwire/textwire/v2/token"
@@ -18,6 +19,20 @@ func (ol *ObjectLiteral) expressionNode() {}
 
 func (ol *ObjectLiteral) Tok() *token.Token {
 	return &ol.Token
+}
+
+// SortedKeys returns the keys of the literal in a fixed (sorted) order,
+// so that everything done per pair happens in the same order on every run
+func (ol *ObjectLiteral) SortedKeys() []string {
+	keys := make([]string, 0, len(ol.Pairs))
+
+	for key := range ol.Pairs {
+		keys = append(keys, key)
+	}
+
+	sort.Strings(keys)
+
+	return keys
 }
 
 func (ol *ObjectLiteral) String() string {
